@@ -97,3 +97,58 @@ Theorem C03_builder_group_filter : forall re_ok d inner cond fl fi q pr' fo,
     q = QFilter (negb (pr_haspos (adj_prc c prc))) (QGroup qin) (adj_cond c (adj_prc c prc)).
 Proof. exact process_group_filter_shape. Qed.
 Print Assumptions C03_builder_group_filter.
+
+(* ------------------------------------------------------------------ *)
+(* END TO END, from the TEXT: for a predicate-free path P whose last step is a child step,
+   P[k], P[last()] and P[position() op k] compile and select, for every parent the prefix
+   of P yields (in the prefix's order), the picked candidates of THAT parent. *)
+From XP Require Import Scan Parse Build Api.
+From XP.Spec Require Import Axes Paths.
+From XP.Proofs Require Import HashInj RoundTripOps RoundTripPaths EndToEndPaths EndToEndPred EndToEndPos.
+Open Scope Z_scope.
+
+Theorem C03_end_to_end_index : forall D has_ns hcode rm rn rr re_ok ns p abs pre t ds,
+  path_syntax p -> steps_of p = (abs, (pre ++ [mkStep Child t])%list) ->
+  xok (with_pred p (pred_index ds)) ->
+  (List.length pre + 2 < max_build_depth)%nat -> hash_ok hcode (all_nodes D) ->
+  Z.abs (lit_Z ds) <= 2 ^ 53 ->
+  exists q, compile re_ok (print_min (with_pred p (pred_index ds))) ns = Ok q /\
+            per_parent D has_ns hcode rm rn rr q abs pre t (pick_nth (lit_Z ds)).
+Proof. exact C03_index_end_to_end. Qed.
+Print Assumptions C03_end_to_end_index.
+
+Theorem C03_end_to_end_index_members : forall D has_ns hcode rm rn rr re_ok ns p abs pre t ds,
+  path_syntax p -> steps_of p = (abs, (pre ++ [mkStep Child t])%list) ->
+  xok (with_pred p (pred_index ds)) ->
+  (List.length pre + 2 < max_build_depth)%nat -> hash_ok hcode (all_nodes D) ->
+  Z.abs (lit_Z ds) <= 2 ^ 53 ->
+  exists q, compile re_ok (print_min (with_pred p (pred_index ds))) ns = Ok q /\
+    forall c, valid D c = true ->
+    exists l, sel D has_ns hcode rm rn rr q c = Val l /\
+      forall n, In n (nodes_of l) <->
+        exists m, path_den D has_ns pre (if abs then root_node else c) m /\
+                  1 <= lit_Z ds /\
+                  nth_error (cands D has_ns t m) (Z.to_nat (lit_Z ds - 1)) = Some n.
+Proof. exact C03_index_members. Qed.
+Print Assumptions C03_end_to_end_index_members.
+
+Theorem C03_end_to_end_last : forall D has_ns hcode rm rn rr re_ok ns p abs pre t,
+  path_syntax p -> steps_of p = (abs, (pre ++ [mkStep Child t])%list) ->
+  xok (with_pred p pred_last) ->
+  (List.length pre + 2 < max_build_depth)%nat -> hash_ok hcode (all_nodes D) ->
+  exists q, compile re_ok (print_min (with_pred p pred_last)) ns = Ok q /\
+            per_parent D has_ns hcode rm rn rr q abs pre t
+              (fun l => pick_nth (go_int (of_Z (Z.of_nat (List.length l)))) l).
+Proof. exact C03_last_end_to_end. Qed.
+Print Assumptions C03_end_to_end_last.
+
+Theorem C03_end_to_end_position : forall D has_ns hcode rm rn rr re_ok ns p abs pre t b o ds,
+  path_syntax p -> steps_of p = (abs, (pre ++ [mkStep Child t])%list) ->
+  cmp_of (opname b) = Some o ->
+  xok (with_pred p (pred_position b ds)) ->
+  (List.length pre + 2 < max_build_depth)%nat -> hash_ok hcode (all_nodes D) ->
+  exists q, compile re_ok (print_min (with_pred p (pred_position b ds))) ns = Ok q /\
+            per_parent D has_ns hcode rm rn rr q abs pre t
+              (select_pos (fun pos => cmp_num o (of_Z (Z.of_nat pos)) (lit_f ds)) 1).
+Proof. exact C03_position_end_to_end. Qed.
+Print Assumptions C03_end_to_end_position.
